@@ -297,3 +297,162 @@ Print Assumptions C10_example_tree.
 Example C10_example_tmp_inj : tmp_inj C10_ex_tmp.
 Proof. exact harness_tmp_inj. Qed.
 Print Assumptions C10_example_tmp_inj.
+
+(* ======================================================================================================== *)
+(* Tree level, "is the identity when nothing is discarded" (TTN/TruncTreeValue.v).
+   Vocabulary.  `net_value zero one add mul s tbl rho` (C02, TTN/InvSem.v): the value of the whole network of
+   store s over a commutative semiring, `tbl` giving the entries of the opaque atoms (initial tensors and kernel
+   factors), at the assignment rho of indices to the open wires.  `wfs`: the extended store invariant of C02.
+   `svd_truncation_ops` / `recursive_truncation_ops`: the edit operations the routine performs, in order.
+   `nothing_discarded s ops` (executable): every truncating factorisation of the run keeps the dimension of the
+   untruncated one -- min(rows, columns) for the truncated SVD of contract_and_split_with_parent, min(dimension of
+   the bond, product of the other legs of the upper tensor) for a projector of recursive_truncation.
+   `kernel_contracts .. tbl s ops`: what the numerical kernels promise about the factors they return, step by step:
+   QR: Q . R = A over the new bond (`def_holds`); truncated SVD: U . (S Vh) = A PROVIDED the kept dimension is the
+   full one; projector pair (conj(P), P^T) of recursive_truncation: its product, applied to the tensor above the
+   bond on the leg of the bond, gives that tensor back (`proj_contract`: P P^dagger A = A) PROVIDED the width of P
+   is the full one.  The dense oracle of harness/props/c10.py validates these contracts numerically on every
+   nothing-discarded tree case. *)
+From Coq Require Import Permutation.
+From PTN Require Import TTN.InvSplit TTN.InvRun TTN.InvContract Wire.Sem TTN.InvSem TTN.TruncTreeValue.
+
+(* both routines are runs of edit operations of the store model (C02): on a well-formed store a successful run of
+   the program is `run` of its trace, every operation accepted, inside its documented precondition, none a
+   constructor *)
+Theorem C10_svd_truncation_is_a_run_of_edits : forall (kd : id -> nat) (rid : id) (cs cs' : cstore),
+  wf (fst cs) -> aget rid (nodes (fst cs)) = None -> svd_truncation kd rid cs = Some cs' ->
+  let ops := svd_truncation_ops kd rid cs in
+  run (fst cs) ops = (fst cs', map (fun _ => true) ops) /\ ops_ok (fst cs) ops /\ forallb is_edit_op ops = true.
+Proof. exact svd_truncation_traced. Qed.
+Print Assumptions C10_svd_truncation_is_a_run_of_edits.
+
+Theorem C10_recursive_truncation_is_a_run_of_edits : forall (tmp : tmpids) (kd : id -> nat) (rid : id) (cs cs' : cstore),
+  wf (fst cs) -> aget rid (nodes (fst cs)) = None -> tmp_fresh tmp (fst cs) -> tmp_inj tmp ->
+  recursive_truncation tmp kd rid cs = Some cs' ->
+  let ops := recursive_truncation_ops tmp kd rid cs in
+  run (fst cs) ops = (fst cs', map (fun _ => true) ops) /\ ops_ok (fst cs) ops /\ forallb is_edit_op ops = true.
+Proof. exact recursive_truncation_traced. Qed.
+Print Assumptions C10_recursive_truncation_is_a_run_of_edits.
+
+(* svd_truncation: with nothing discarded, under the kernel contracts, the result denotes the same tensor: same
+   open wires, same value at every assignment, extended invariant preserved *)
+Theorem C10_svd_truncation_identity_when_nothing_discarded :
+  forall (R : Type) (zero one : R) (add mul : R -> R -> R), comm_semiring zero one add mul ->
+  forall (tbl : nat -> list nat -> R) (kd : id -> nat) (rid : id) (cs cs' : cstore),
+  wfs (fst cs) -> aget rid (nodes (fst cs)) = None -> svd_truncation kd rid cs = Some cs' ->
+  nothing_discarded (fst cs) (svd_truncation_ops kd rid cs) ->
+  kernel_contracts R zero one add mul tbl (fst cs) (svd_truncation_ops kd rid cs) ->
+  wfs (fst cs') /\ Permutation (open_wires (fst cs')) (open_wires (fst cs)) /\
+  forall rho, net_value zero one add mul (fst cs') tbl rho = net_value zero one add mul (fst cs) tbl rho.
+Proof. exact svd_truncation_identity. Qed.
+Print Assumptions C10_svd_truncation_identity_when_nothing_discarded.
+
+(* recursive_truncation (canonical form at the root, then the projector recursion) *)
+Theorem C10_recursive_truncation_identity_when_nothing_discarded :
+  forall (R : Type) (zero one : R) (add mul : R -> R -> R), comm_semiring zero one add mul ->
+  forall (tbl : nat -> list nat -> R) (tmp : tmpids) (kd : id -> nat) (rid : id) (cs cs' : cstore),
+  wfs (fst cs) -> aget rid (nodes (fst cs)) = None -> tmp_fresh tmp (fst cs) -> tmp_inj tmp ->
+  recursive_truncation tmp kd rid cs = Some cs' ->
+  nothing_discarded (fst cs) (recursive_truncation_ops tmp kd rid cs) ->
+  kernel_contracts R zero one add mul tbl (fst cs) (recursive_truncation_ops tmp kd rid cs) ->
+  wfs (fst cs') /\ Permutation (open_wires (fst cs')) (open_wires (fst cs)) /\
+  forall rho, net_value zero one add mul (fst cs') tbl rho = net_value zero one add mul (fst cs) tbl rho.
+Proof. exact recursive_truncation_identity. Qed.
+Print Assumptions C10_recursive_truncation_identity_when_nothing_discarded.
+
+(* the same conclusions whenever every factorisation of the run happens to be exact (`exact_step`: the contracts
+   without the proviso), whatever the kept dimensions: e.g. when only vanishing singular values are dropped *)
+Theorem C10_svd_truncation_exact_factors : forall (R : Type) (zero one : R) (add mul : R -> R -> R), comm_semiring zero one add mul ->
+  forall (tbl : nat -> list nat -> R) (kd : id -> nat) (rid : id) (cs cs' : cstore),
+  wfs (fst cs) -> aget rid (nodes (fst cs)) = None -> svd_truncation kd rid cs = Some cs' ->
+  along (exact_step R zero one add mul tbl) (fst cs) (svd_truncation_ops kd rid cs) ->
+  wfs (fst cs') /\ Permutation (open_wires (fst cs')) (open_wires (fst cs)) /\
+  forall rho, net_value zero one add mul (fst cs') tbl rho = net_value zero one add mul (fst cs) tbl rho.
+Proof. exact svd_truncation_exact. Qed.
+Print Assumptions C10_svd_truncation_exact_factors.
+
+Theorem C10_recursive_truncation_exact_factors : forall (R : Type) (zero one : R) (add mul : R -> R -> R), comm_semiring zero one add mul ->
+  forall (tbl : nat -> list nat -> R) (tmp : tmpids) (kd : id -> nat) (rid : id) (cs cs' : cstore),
+  wfs (fst cs) -> aget rid (nodes (fst cs)) = None -> tmp_fresh tmp (fst cs) -> tmp_inj tmp ->
+  recursive_truncation tmp kd rid cs = Some cs' ->
+  along (exact_step R zero one add mul tbl) (fst cs) (recursive_truncation_ops tmp kd rid cs) ->
+  wfs (fst cs') /\ Permutation (open_wires (fst cs')) (open_wires (fst cs)) /\
+  forall rho, net_value zero one add mul (fst cs') tbl rho = net_value zero one add mul (fst cs) tbl rho.
+Proof. exact recursive_truncation_exact. Qed.
+Print Assumptions C10_recursive_truncation_exact_factors.
+
+(* svd_truncation under the kernel contracts of C02 verbatim (`contracts_hold` along the trace) *)
+Theorem C10_svd_truncation_value_C02_contracts : forall (R : Type) (zero one : R) (add mul : R -> R -> R), comm_semiring zero one add mul ->
+  forall (tbl : nat -> list nat -> R) (kd : id -> nat) (rid : id) (cs cs' : cstore),
+  wfs (fst cs) -> aget rid (nodes (fst cs)) = None -> svd_truncation kd rid cs = Some cs' ->
+  contracts_hold zero one add mul tbl (fst cs) (svd_truncation_ops kd rid cs) ->
+  wfs (fst cs') /\ Permutation (open_wires (fst cs')) (open_wires (fst cs)) /\
+  forall rho, net_value zero one add mul (fst cs') tbl rho = net_value zero one add mul (fst cs) tbl rho.
+Proof. exact svd_truncation_net_value. Qed.
+Print Assumptions C10_svd_truncation_value_C02_contracts.
+
+(* one projector step of recursive_truncation: an identity inserted on the bond (c, p) and replaced by a pair of
+   kernel factors joined by a bond of dimension k keeps the value of the network as soon as the product of the
+   pair acts as the identity on p's tensor over the old edge wire -- no condition on the identity tensor, and the
+   pair need not multiply to the identity matrix *)
+Theorem C10_projector_pair_step : forall (R : Type) (zero one : R) (add mul : R -> R -> R), comm_semiring zero one add mul ->
+  forall (tbl : nat -> list nat -> R) (s : store) (c p new : id) (sa : store) (oid iid : id) (m : mode) (k : nat) (s' : store),
+  wfs s -> insert_identity s c p new = Some sa ->
+  split_nodes sa new (po p) (pi c) oid iid 2 m k = Some s' ->
+  spec_ok sa new (po p) (pi c) -> ids_ok sa new oid iid ->
+  (forall r j, j < wdim sa (ew sa new) ->
+     sum_upto R zero add (wdim sa (ew sa new))
+       (fun i => mul (node_value zero one add mul sa tbl p (upd r (ew sa new) i))
+                     (sum_upto R zero add k (fun l => mul (tbl (next_atom sa) [i; l]) (tbl (S (next_atom sa)) [l; j]))))
+     = node_value zero one add mul sa tbl p (upd r (ew sa new) j)) ->
+  wfs s' /\ Permutation (open_wires s') (open_wires s) /\
+  forall rho, net_value zero one add mul s' tbl rho = net_value zero one add mul s tbl rho.
+Proof. exact proj_pair_net_value. Qed.
+Print Assumptions C10_projector_pair_step.
+
+(* a pair that multiplies to the identity matrix (square unitary projector) satisfies the projector contract *)
+Theorem C10_unitary_projector_contract : forall (R : Type) (zero one : R) (add mul : R -> R -> R), comm_semiring zero one add mul ->
+  forall (tbl : nat -> list nat -> R) (s : store) (n0 p : id) (k : nat),
+  (forall i j, i < wdim s (ew s n0) -> j < wdim s (ew s n0) ->
+     sum_upto R zero add k (fun l => mul (tbl (next_atom s) [i; l]) (tbl (S (next_atom s)) [l; j])) = if Nat.eqb i j then one else zero) ->
+  proj_contract R zero one add mul tbl s n0 p k.
+Proof. exact proj_contract_of_identity. Qed.
+Print Assumptions C10_unitary_projector_contract.
+
+(* "full dimension" of a recorded factorisation = the dimension the model gives the UNTRUNCATED factorisation
+   (kind 1) of the same tensor and leg bipartition *)
+Theorem C10_full_rank_is_untruncated_dimension : forall s n o i oid iid kind m rbond s',
+  wfs s -> split_nodes s n o i oid iid kind m rbond = Some s' ->
+  exists s1 nd t ol il,
+    access s n = Some (s1, nd, t) /\ find_leg_values nd o = Some ol /\ find_leg_values nd i = Some il /\
+    (full_rankb s' (last (defs s') dflt_def) = true <->
+     sp_bd s kind m rbond (permute 0 ol (axes t)) (permute 0 il (axes t))
+     = sp_bd s 1 m rbond (permute 0 ol (axes t)) (permute 0 il (axes t))).
+Proof. exact full_rank_split. Qed.
+Print Assumptions C10_full_rank_is_untruncated_dimension.
+
+(* non-vacuity.  svd_truncation on a three-node star (all dimensions 2, centre at a leaf) with both bonds kept at
+   the full dimension 2, and recursive_truncation on a three-node star whose root tensor has rank 1 across the bond
+   to child 1, so that this bond goes from dimension 2 to min(2, 1) = 1 with nothing discarded (the projector pair
+   is (1 0)^T (1 0), not the identity matrix): concrete tables over nat satisfy every hypothesis, hence the value
+   of the network is unchanged at every assignment *)
+Example C10_example_svd_identity :
+  (wfsb (fst exs_cs) = true /\ amem 99 (nodes (fst exs_cs)) = false /\
+   (exists cs', svd_truncation exs_kd 99 exs_cs = Some cs') /\
+   nothing_discarded (fst exs_cs) (svd_truncation_ops exs_kd 99 exs_cs) /\
+   kernel_contracts nat 0 1 Nat.add Nat.mul exs_tbl (fst exs_cs) (svd_truncation_ops exs_kd 99 exs_cs)) /\
+  forall cs', svd_truncation exs_kd 99 exs_cs = Some cs' ->
+  forall rho, net_value 0 1 Nat.add Nat.mul (fst cs') exs_tbl rho = net_value 0 1 Nat.add Nat.mul (fst exs_cs) exs_tbl rho.
+Proof. exact (conj exs_hyps exs_conclusion). Qed.
+Print Assumptions C10_example_svd_identity.
+
+Example C10_example_rec_identity :
+  (wfsb (fst exr_cs) = true /\ trunc_hyps exr_tmp 99 exr_cs = true /\
+   (exists cs', recursive_truncation exr_tmp exr_kd 99 exr_cs = Some cs' /\ map (bond_dim (fst cs')) [1; 2] = [1; 1]) /\
+   map (bond_dim (fst exr_cs)) [1; 2] = [2; 1] /\
+   nothing_discarded (fst exr_cs) (recursive_truncation_ops exr_tmp exr_kd 99 exr_cs) /\
+   kernel_contracts nat 0 1 Nat.add Nat.mul exr_tbl (fst exr_cs) (recursive_truncation_ops exr_tmp exr_kd 99 exr_cs)) /\
+  forall cs', recursive_truncation exr_tmp exr_kd 99 exr_cs = Some cs' ->
+  forall rho, net_value 0 1 Nat.add Nat.mul (fst cs') exr_tbl rho = net_value 0 1 Nat.add Nat.mul (fst exr_cs) exr_tbl rho.
+Proof. exact (conj exr_hyps exr_conclusion). Qed.
+Print Assumptions C10_example_rec_identity.
